@@ -12,8 +12,13 @@
 //@ outside: compactify / generation renumbering written back to the trace (needs TraceHandler with rich states); RecursiveStreamCursor over ValueAggregate iterables
 //@ harness: name=c01_stream_generation_bounded playback=1 props=C01 panicfree=1 cap=900 cost=60 sym="generation: any u32 >= STREAM_MAX_SIZE; source previous/current: any" bound="one addition into an empty stream"
 //@ harness: name=c01_stream_generation_small playback=1 trivial=1 props=C01,C13 cap=900 cost=60 sym="none: generations 0 and 2" bound="one addition"
-//@ harness: name=c12_stream_iteration_order playback=1 props=C12,C13 cap=1800 cost=300 sym="tags of 5 values: any u8; four scrambled (concrete) insertion orders" bound="previous generations {0,2}, current {1}, one new value"
-//@ harness: name=c13_cursor_sees_values_added_later playback=1 props=C13,C09,C12 cap=1800 cost=200 sym="generation (0..=2) of one previous-data and one current-data value (sparse matrices); the later value: source previous/current/new and a later generation (<= 3)" bound="3 values; generations <= 3"
+//@ harness: name=c12_stream_iteration_order_natural playback=1 props=C12,C13 cap=1800 cost=200 sym="tags of 5 values: any u8" bound="previous generations {0,2}, current {1}, one new value; insertion order: natural"
+//@ harness: name=c12_stream_iteration_order_reversed playback=1 props=C12,C13 cap=1800 cost=200 sym="tags of 5 values: any u8" bound="previous generations {0,2}, current {1}, one new value; insertion order: reversed"
+//@ harness: name=c12_stream_iteration_order_scrambled playback=1 props=C12,C13 cap=1800 cost=200 sym="tags of 5 values: any u8" bound="previous generations {0,2}, current {1}, one new value; insertion order: scrambled"
+//@ harness: name=c13_cursor_dense_then_previous playback=1 props=C13,C09,C12 cap=1800 cost=200 sym="payload tags of 3 values: any u8" bound="dense matrices; later value to previous data"
+//@ harness: name=c13_cursor_sparse_current_then_current playback=1 props=C13,C09,C12 cap=1800 cost=200 sym="payload tags of 3 values: any u8" bound="sparse current-data matrix (generation 2 only); later value to current data (the F10 shape)"
+//@ harness: name=c13_cursor_sparse_previous_then_previous playback=1 props=C13,C09,C12 cap=1800 cost=200 sym="payload tags of 3 values: any u8" bound="sparse previous-data matrix; later value to previous data"
+//@ harness: name=c13_cursor_sparse_both_then_new playback=1 props=C13,C09,C12 cap=1800 cost=200 sym="payload tags of 3 values: any u8" bound="both matrices sparse; later value is new"
 //@ harness: name=c13_stream_size_limit_exact playback=1 props=C13 cap=900 cost=60 sym="sizes of the three sources: any usize with sum < 2^20" bound="sizes set directly in the matrices (no 1024 insertions)"
 //@ harness: name=c13_generation_from_data playback=1 props=C13,C12 cap=300 cost=10 sym="generation: any u32; source: previous/current" bound="none"
 
@@ -117,51 +122,47 @@ fn order_body(perm: [usize; 5]) {
     std::mem::forget(s);
 }
 
-/// value 4 goes to the same generation as value 0 and is always added after it; otherwise the values are
-/// added in four different (concrete) orders, with symbolic tags
-#[kani::proof]
-#[kani::unwind(8)]
-#[kani::stub(alloc::fmt::format, fmt_stub)]
-fn c12_stream_iteration_order() {
-    order_body([0, 1, 2, 3, 4]);
-    order_body([3, 2, 1, 0, 4]);
-    order_body([2, 0, 4, 3, 1]);
-    order_body([1, 3, 0, 4, 2]);
-    kani::cover!(true, "end reached");
+macro_rules! order_shape {
+    ($($name:ident => $perm:expr;)*) => {
+        $(
+            #[kani::proof]
+            #[kani::unwind(8)]
+            #[kani::stub(alloc::fmt::format, fmt_stub)]
+            fn $name() {
+                order_body($perm);
+                kani::cover!(true, "end reached");
+            }
+        )*
+    };
+}
+
+// value 4 goes to the same generation as value 0 and is always added after it; otherwise the values are
+// added in different (concrete) orders, with symbolic tags: one order per harness
+order_shape! {
+    c12_stream_iteration_order_natural => [0, 1, 2, 3, 4];
+    c12_stream_iteration_order_reversed => [3, 2, 1, 0, 4];
+    c12_stream_iteration_order_scrambled => [2, 0, 4, 3, 1];
 }
 
 /// A cursor taken from a stream denotes "everything seen so far": nothing is after it, and every value
 /// added later is handed out after it exactly once - also when the value matrices are sparse (the
 /// current-data matrix is: generations whose values also exist in previous data stay empty).  This is the
 /// recursive-stream fold's progress invariant (found violated on the pinned tree: finding F10).
-#[kani::proof]
-#[kani::unwind(7)]
-#[kani::stub(alloc::fmt::format, fmt_stub)]
-fn c13_cursor_sees_values_added_later() {
-    let (gp, gc): (u32, u32) = (kani::any(), kani::any());
-    kani::assume(gp <= 2 && gc <= 2);
+fn cursor_body(gp: u32, gc: u32, which: u8) {
+    let tags: [u8; 3] = kani::any();
     let mut s = Stream::<P>::new();
-    let r1 = s.add_value(P { trace_pos: 1, tag: 1 }, Generation::Previous(gen(gp)));
-    let r2 = s.add_value(P { trace_pos: 2, tag: 2 }, Generation::Current(gen(gc)));
+    let r1 = s.add_value(P { trace_pos: 1, tag: tags[0] }, Generation::Previous(gen(gp)));
+    let r2 = s.add_value(P { trace_pos: 2, tag: tags[1] }, Generation::Current(gen(gc)));
     kani::assert(r1.is_ok() && r2.is_ok(), "C13: additions succeed");
     let cursor = s.cursor();
     kani::assert(s.slice_iter(cursor).next().is_none(), "C13: nothing is after a fresh cursor");
-    // a later value: a later generation of previous / current data, or a new value
-    let which: u8 = kani::any();
-    let g: u32 = kani::any();
-    kani::assume(which < 3 && g <= 3);
+    // a later value: the next generation of previous / current data, or a new value
     let generation = match which {
-        0 => {
-            kani::assume(g > gp);
-            Generation::Previous(gen(g))
-        }
-        1 => {
-            kani::assume(g > gc);
-            Generation::Current(gen(g))
-        }
+        0 => Generation::Previous(gen(gp + 1)),
+        1 => Generation::Current(gen(gc + 1)),
         _ => Generation::New,
     };
-    let w = P { trace_pos: 3, tag: 3 };
+    let w = P { trace_pos: 3, tag: tags[2] };
     let r3 = s.add_value(w, generation);
     kani::assert(r3.is_ok(), "C13: addition succeeds");
     {
@@ -172,10 +173,31 @@ fn c13_cursor_sees_values_added_later() {
     }
     let c2 = s.cursor();
     kani::assert(s.slice_iter(c2).next().is_none(), "C13: the next cursor is past it again");
-    kani::cover!(which == 1 && gc == 2 && g == 3, "sparse current-data matrix, later generation");
-    kani::cover!(which == 2, "new value");
     std::mem::forget((r1, r2, r3));
     std::mem::forget(s);
+}
+
+macro_rules! cursor_shape {
+    ($($name:ident => $gp:expr, $gc:expr, $which:expr;)*) => {
+        $(
+            #[kani::proof]
+            #[kani::unwind(7)]
+            #[kani::stub(alloc::fmt::format, fmt_stub)]
+            fn $name() {
+                cursor_body($gp, $gc, $which);
+                kani::cover!(true, "end reached");
+            }
+        )*
+    };
+}
+
+// one shape per harness (generation of the previous- / current-data value: dense 0 or sparse 2; the later
+// value goes to previous (0), current (1) or new (2)); payload tags are symbolic
+cursor_shape! {
+    c13_cursor_dense_then_previous => 0, 0, 0;
+    c13_cursor_sparse_current_then_current => 0, 2, 1;
+    c13_cursor_sparse_previous_then_previous => 2, 0, 0;
+    c13_cursor_sparse_both_then_new => 2, 2, 2;
 }
 
 #[kani::proof]
